@@ -19,7 +19,8 @@ TECHNIQUE = "exhaustive enumeration of bounded package directories x listing/inp
 RULE = (
     "every package directory over {1-2 ebuilds} x subsets of {metadata.xml, ChangeLog} x subsets of files/{a.patch, "
     "fix.patch, sub/x.patch} x 0-2 distfiles of 3 x {thick, thin} x 2 checksum sets x {all files empty, distinct "
-    "contents}; Manifest.update() is run on the real directory under a harness-chosen os.listdir order and fetchables "
+    "contents}, plus 3 shapes whose files/ entries share a base name in different sub-directories (files/1.0/fix.patch, "
+    "files/2.0/fix.patch); Manifest.update() is run on the real directory under a harness-chosen os.listdir order and fetchables "
     "order (identity and reversed for every directory; every permutation of the root listing, of the files/ listing and "
     "of the fetchables for the permutation core), the result is parsed with parse_manifest and compared with sizes and "
     "hashlib checksums computed independently, the bytes must be identical under every order, and a second update() by "
@@ -28,6 +29,13 @@ RULE = (
     "a torn write at every open-for-write: the Manifest bytes must be the complete old or the complete new text, and a "
     "following fault-free update() must produce a Manifest that parses back to exactly the files present. A class is "
     "(mode, which entry types occur, order kind, outcome) resp. (crash plan, outcome); distinct_nontrivial counts classes observed."
+)
+RULE += (
+    " Fault variants per scenario: crash before each mutating syscall, crash at the first Python line after each "
+    "rename/link/symlink returns, torn write at each open-for-write, and each write()/writelines() call on a file "
+    "opened for writing below the scratch root failing after half of its data with OSError(ENOSPC) resp. "
+    "KeyboardInterrupt (process alive, the code's own error handling runs; afterwards old-or-new, and a later "
+    "fault-free run must give the complete new state)."
 )
 ASSUMPTIONS = [
     "Excl: file names containing whitespace (the Manifest format is whitespace separated) and distfile names with a directory part",
@@ -42,7 +50,7 @@ ASSUMPTIONS = [
 BOUNDS = {
     "quick": "64 directory shapes x 7 distfile sets x {thick,thin} x 2 checksum sets x 2 content variants = 3584 states, 4 orders each (~14k updates, "
     "each followed by an up-to-date re-run); all permutations (root listing x files/ listing x fetchables, up to 1440 per directory, ~6.9k updates) for "
-    "the 64 shapes with 2 distfiles, thick; crash sweep: all ordered pairs of 10 directory states incl. 'no Manifest yet' x {thick, thin} = 150 scenarios",
+    "the 64 shapes with 2 distfiles and the 3 same-base-name shapes, thick; crash sweep: all ordered pairs of 10 directory states incl. 'no Manifest yet' x {thick, thin} = 150 scenarios",
     "thorough": "same product; all permutations for 64 shapes x {0,2 distfiles} x {thick,thin} x 2 content variants (~21k updates); crash sweep over 16 states = 416 scenarios",
 }
 
@@ -357,7 +365,7 @@ def check_sweep(scr, old, new, only_plan=None):
         return [dict(desc, plan=None, msg=f"fault-free update failed: {status} {value!r}")], {}, 0
     new_text = manifest_bytes(scr.data)
     viol, classes, n = [], {}, 0
-    for plan in sw.plans(events):
+    for plan in sw.plans(events, scr.nwrites):
         if only_plan is not None and list(plan) != list(only_plan):
             continue
         n += 1
@@ -382,7 +390,7 @@ def check_sweep(scr, old, new, only_plan=None):
                     f"{len(text) if text is not None else None} bytes {text[-60:] if text else text!r}; old {len(old_text) if old_text is not None else None} bytes, new {len(new_text)} bytes"[:900],
                 )
             )
-        if status != "crashed":
+        if not sw.fired(status):
             viol.append(dict(desc, plan=list(plan), what="engine", msg=f"engine: plan {plan} did not fire ({status})"))
         # recovery: the next regeneration must give a Manifest that parses back to exactly what is there
         try:
@@ -394,10 +402,14 @@ def check_sweep(scr, old, new, only_plan=None):
                 viol.append(
                     dict(desc, plan=list(plan), what="recovery", msg=f"after an interruption at {where} the next update() writes a Manifest that does not match the files present: {_diff(exp, got)}"[:900])
                 )
+            elif plan[0] in sw.WRITE_FAULTS and manifest_bytes(scr.data) != new_text:
+                out += "+recovery-bad"
+                viol.append(
+                    dict(desc, plan=list(plan), what="recovery", msg=f"after {where} a later fault-free update() does not produce the complete new text: {manifest_bytes(scr.data)!r}"[:900])
+                )
         except Exception as e:
             viol.append(dict(desc, plan=list(plan), what="recovery", msg=f"after an interruption at {where} the next update() raised {type(e).__name__}: {e}"[:900]))
-        ev = events[plan[1]][0] if plan[1] < len(events) else "end"
-        key = f"sweep:{'thin' if new['thin'] else 'thick'}:{plan[0]}@{ev}:{out}"
+        key = f"sweep:{'thin' if new['thin'] else 'thick'}:{sw.plan_class(events, plan)}:{out}"
         classes[key] = classes.get(key, 0) + 1
     return viol, classes, n
 
@@ -432,8 +444,20 @@ def rt_space(tier):
     return out
 
 
+def same_name_shapes():
+    """files/ entries that share a base name in different sub-directories (a sort on the base name ties on them)"""
+    return [
+        ["p-1.ebuild", "files/1.0/fix.patch", "files/2.0/fix.patch"],
+        ["p-1.ebuild", "metadata.xml", "files/fix.patch", "files/1.0/fix.patch", "files/2.0/fix.patch"],
+        ["p-1.ebuild", "files/1.0/a.patch", "files/2.0/a.patch", "files/2.0/b.patch"],
+    ]
+
+
 def perm_space(tier):
     out = []
+    for files in same_name_shapes():
+        for variant in (1, 0):
+            out.append((state(files, variant, [], False, 0), True))
     if tier == "quick":
         for files in dir_shapes():
             out.append((state(files, 1, ["d-1.tar.gz", "D-2.zip"], False, 0), True))
